@@ -192,7 +192,8 @@ def print_assumptions(pid):
             continue
         if line.strip() in ("Axioms:", "Closed under the global context"):
             continue
-        m = re.match(r"^([A-Za-z_][\w'.]*)\s*:", line)
+        # an assumption is printed as "Name : type" or, when the type is long, as "Name" with "  : type" on the next lines
+        m = re.match(r"^([A-Za-z_][\w'.]*)\s*(:|$)", line)
         if m and not line.startswith(" "):
             res[cur].append(m.group(1))
     bad = []
@@ -361,6 +362,9 @@ def write_case_obs(cases, cf, of):
             fh.write("end\n")
 
 
+SKIPPED = []     # notes about cases that could not be evaluated (shard time limit); check.py copies them into the evidence
+
+
 def run_driver_shard(args):
     famnum, cases, mask, oracle_ids, base, drv = args
     cf, of = base + ".cases", base + ".obs"
@@ -372,7 +376,7 @@ def run_driver_shard(args):
     try:
         rc, out = sh("ulimit -v 12000000 2>/dev/null; exec %s %s %s %s %s %s" % (drv, famnum, m, o, cf, of), timeout=1500)
     except subprocess.TimeoutExpired:
-        return {"error": "model driver shard exceeded 25 minutes"}
+        return {"timeout": True}
     if rc != 0:
         return {"error": out[-3000:] or "model driver shard died without output (memory limit?)"}
     res = {}
@@ -409,7 +413,18 @@ def run_model(fam, cases, mask, oracles, workdir, name, nshards=NCPU, coq_sample
     with ThreadPoolExecutor(max_workers=NCPU) as ex:
         results = list(ex.map(run_driver_shard, jobs))
     corr_fail, orc_fail = [], {o: [] for o in oracles}
+    # a shard that exceeds the 25-minute limit says something about the speed of the list-based model on this machine, not
+    # about the crate: its cases count as NOT EVALUATED (recorded in the evidence notes), unless most shards time out - then
+    # the correspondence cannot be evaluated at all and that is reported as before
+    timed_out = [idxs for idxs, r in zip([s_ for s_ in shards if s_], results) if r.get("timeout")]
+    if timed_out and 2 * len(timed_out) > len(results):
+        return None, None, "model driver: %d of %d shards exceeded 25 minutes" % (len(timed_out), len(results))
+    for idxs in timed_out:
+        SKIPPED.append("%s: %d cases not evaluated (model shard exceeded 25 minutes): %s" % (
+            name, len(idxs), ", ".join(sorted({cases[i].tag or cases[i].cid for i in idxs}))[:300]))
     for idxs, r in zip([s_ for s_ in shards if s_], results):
+        if r.get("timeout"):
+            continue
         if "error" in r:
             return None, None, (r["error"] or "model driver shard died without output")
         for k in r.get("corr", []):
